@@ -5,8 +5,10 @@ import BvaProofs.Refine
 `Api.addsub sub v x` is the L1 model of `v += x` / `v -= x` and of every other syntactic form of
 `+` / `-` (they all reach the same carry-chain bodies: `Bvf` with `cadd`/`csub` in three RHS arms,
 `Bvd` with `overflowing_*` and the `c1 | c2` carry convention in two arms, `Bv` dispatching on both).
-Proved here: addition and subtraction for a right-hand side that is a vector of any implementation,
-word width and length.  Multiplication: see the status note at the end.
+Proved here for a right-hand side `x : Api.Rhs` that is either a vector of any implementation, word width
+and length, or a native unsigned integer of any of the six types (the code lifts it to a 128-bit fixed or
+a dynamic temporary — `Api.liftUInt` — which is proved to denote the integer): addition, subtraction and
+multiplication (schoolbook rows over `wmul`, including the separate half-word `u128::wmul`).
 -/
 namespace Bva
 
@@ -21,54 +23,122 @@ theorem Bvf.addsubAssign_size {w : Nat} (sub : Bool) (s : Raw w) (x : AnyBv) (hw
 
 /-- `a + b`: result of `a`'s type and length, value `(val a + val b) mod 2^len`, storage invariant
 re-established (nothing left in spare capacity or padding), for every pairing of implementations. -/
-theorem C01_add (v x : Vec) (hv : v.Inv) (hx : x.Inv) :
-    (Api.addsub false v (.vec x)).Inv ∧ (Api.addsub false v (.vec x)).abs = v.abs.add x.abs := by
-  have hxa := hx.any
-  have hxe := Vec.any_abs x
+theorem C01_add (v : Vec) (x : Api.Rhs) (hv : v.Inv) (hx : x.Inv) :
+    (Api.addsub false v x).Inv ∧ (Api.addsub false v x).abs = v.abs.add x.spec := by
   cases v with
   | f w s =>
-    have r := Bvf.addsubAssign_add s x.any hv.1.two_le hv.2 (Bvf.rhsWord_val hv.1 _ _ hxa)
+    obtain ⟨hxa, hxe⟩ := Api.Rhs.any_ok (.f w s) x hx
+    have r := Bvf.addsubAssign_add s _ hv.1.two_le hv.2 (Bvf.rhsWord_val hv.1 _ _ hxa)
     rw [hxe] at r
     exact ⟨⟨hv.1, r.1⟩, r.2⟩
   | d s =>
-    have r := Bvd.addsubAssign_add s x.any hv (fun n hn => Bvd.rhsWords_val _ hxa n hn) (Bvd.rhsWords_lt _ hxa)
+    obtain ⟨hxa, hxe⟩ := Api.Rhs.any_ok (.d s) x hx
+    have r := Bvd.addsubAssign_add s _ hv (fun n hn => Bvd.rhsWords_val _ hxa n hn) (Bvd.rhsWords_lt _ hxa)
     rw [hxe] at r
     exact ⟨r.1, r.2.1⟩
   | a b =>
     cases b with
     | fixed s =>
-      have r := Bvf.addsubAssign_add s x.any (by decide) hv.1 (Bvf.rhsWord_val wok64 _ _ hxa)
+      obtain ⟨hxa, hxe⟩ := Api.Rhs.any_ok (.a (.fixed s)) x hx
+      have r := Bvf.addsubAssign_add s _ (by decide) hv.1 (Bvf.rhsWord_val wok64 _ _ hxa)
       rw [hxe] at r
-      exact ⟨⟨r.1, (Bvf.addsubAssign_size false s x.any (by decide)).trans hv.2⟩, r.2⟩
+      exact ⟨⟨r.1, (Bvf.addsubAssign_size false s _ (by decide)).trans hv.2⟩, r.2⟩
     | dynamic s =>
-      have r := Bvd.addsubAssign_add s x.any hv (fun n hn => Bvd.rhsWords_val _ hxa n hn) (Bvd.rhsWords_lt _ hxa)
+      obtain ⟨hxa, hxe⟩ := Api.Rhs.any_ok (.a (.dynamic s)) x hx
+      have r := Bvd.addsubAssign_add s _ hv (fun n hn => Bvd.rhsWords_val _ hxa n hn) (Bvd.rhsWords_lt _ hxa)
       rw [hxe] at r
       exact ⟨r.1, r.2.1⟩
 
 /-- `a - b`: value `(val a - val b) mod 2^len`, written in `Nat` as `(val a + 2^n - val b mod 2^n) mod 2^n`. -/
-theorem C01_sub (v x : Vec) (hv : v.Inv) (hx : x.Inv) :
-    (Api.addsub true v (.vec x)).Inv ∧ (Api.addsub true v (.vec x)).abs = v.abs.sub x.abs := by
-  have hxa := hx.any
-  have hxe := Vec.any_abs x
+theorem C01_sub (v : Vec) (x : Api.Rhs) (hv : v.Inv) (hx : x.Inv) :
+    (Api.addsub true v x).Inv ∧ (Api.addsub true v x).abs = v.abs.sub x.spec := by
   cases v with
   | f w s =>
-    have r := Bvf.addsubAssign_sub s x.any hv.1.two_le hv.2 (Bvf.rhsWord_val hv.1 _ _ hxa)
+    obtain ⟨hxa, hxe⟩ := Api.Rhs.any_ok (.f w s) x hx
+    have r := Bvf.addsubAssign_sub s _ hv.1.two_le hv.2 (Bvf.rhsWord_val hv.1 _ _ hxa)
     rw [hxe] at r
     exact ⟨⟨hv.1, r.1⟩, r.2⟩
   | d s =>
-    have r := Bvd.addsubAssign_sub s x.any hv (fun n hn => Bvd.rhsWords_val _ hxa n hn) (Bvd.rhsWords_lt _ hxa)
+    obtain ⟨hxa, hxe⟩ := Api.Rhs.any_ok (.d s) x hx
+    have r := Bvd.addsubAssign_sub s _ hv (fun n hn => Bvd.rhsWords_val _ hxa n hn) (Bvd.rhsWords_lt _ hxa)
     rw [hxe] at r
     exact ⟨r.1, r.2.1⟩
   | a b =>
     cases b with
     | fixed s =>
-      have r := Bvf.addsubAssign_sub s x.any (by decide) hv.1 (Bvf.rhsWord_val wok64 _ _ hxa)
+      obtain ⟨hxa, hxe⟩ := Api.Rhs.any_ok (.a (.fixed s)) x hx
+      have r := Bvf.addsubAssign_sub s _ (by decide) hv.1 (Bvf.rhsWord_val wok64 _ _ hxa)
       rw [hxe] at r
-      exact ⟨⟨r.1, (Bvf.addsubAssign_size true s x.any (by decide)).trans hv.2⟩, r.2⟩
+      exact ⟨⟨r.1, (Bvf.addsubAssign_size true s _ (by decide)).trans hv.2⟩, r.2⟩
     | dynamic s =>
-      have r := Bvd.addsubAssign_sub s x.any hv (fun n hn => Bvd.rhsWords_val _ hxa n hn) (Bvd.rhsWords_lt _ hxa)
+      obtain ⟨hxa, hxe⟩ := Api.Rhs.any_ok (.a (.dynamic s)) x hx
+      have r := Bvd.addsubAssign_sub s _ hv (fun n hn => Bvd.rhsWords_val _ hxa n hn) (Bvd.rhsWords_lt _ hxa)
       rw [hxe] at r
       exact ⟨r.1, r.2.1⟩
+
+/-- `a * b`: value `(val a · val b) mod 2^len`. -/
+theorem C01_mul (v : Vec) (x : Api.Rhs) (hv : v.Inv) (hx : x.Inv) :
+    (Api.mul v x).Inv ∧ (Api.mul v x).abs = v.abs.mul x.spec := by
+  cases v with
+  | f w s =>
+    obtain ⟨hxa, hxe⟩ := Api.Rhs.any_ok (.f w s) x hx
+    have r := Bvf.mul_refines s (x.any (.f w s)) hv.1.two_le hv.2 (fun n => by
+      have := AnyBv.valF_getInt_mod _ hxa hv.1 n
+      cases hx' : x.any (.f w s) <;> simp only [hx'] at this ⊢ <;> exact this)
+    rw [hxe] at r
+    exact ⟨⟨hv.1, r.1⟩, r.2⟩
+  | d s =>
+    obtain ⟨hxa, hxe⟩ := Api.Rhs.any_ok (.d s) x hx
+    have r := Bvd.mul_refines s (x.any (.d s)) hv (fun n => by
+      cases hx' : x.any (.d s) with
+      | d r =>
+        rw [hx'] at hxa
+        simp only
+        apply valF_eq_of_bits (by decide)
+        · exact Nat.mod_lt _ (Nat.two_pow_pos _)
+        · intro i j hi hj
+          rw [getLsbD_wd_eq_bitAt _ _ _ (by decide) hj, Nat.testBit_mod_two_pow]
+          have hlt : i * 64 + j < 64 * n := by omega
+          simp only [AnyBv.abs, hlt, decide_true, Bool.true_and]
+          rw [← Raw.abs_bit _ _ (by decide)]; rfl
+      | f w1 r =>
+        rw [hx'] at hxa
+        exact AnyBv.valF_getInt_mod (.f w1 r) hxa wok64 n)
+    rw [hxe] at r
+    exact ⟨r.1, r.2.1⟩
+  | a b =>
+    cases b with
+    | fixed s =>
+      obtain ⟨hxa, hxe⟩ := Api.Rhs.any_ok (.a (.fixed s)) x hx
+      have r := Bvf.mul_refines s (x.any (.a (.fixed s))) (by decide) hv.1 (fun n => by
+        have := AnyBv.valF_getInt_mod _ hxa wok64 n
+        cases hx' : x.any (.a (.fixed s)) <;> simp only [hx'] at this ⊢ <;> exact this)
+      rw [hxe] at r
+      exact ⟨⟨r.1, (Bvf.mul_size s _).trans hv.2⟩, r.2⟩
+    | dynamic s =>
+      obtain ⟨hxa, hxe⟩ := Api.Rhs.any_ok (.a (.dynamic s)) x hx
+      have r := Bvd.mul_refines s (x.any (.a (.dynamic s))) hv (fun n => by
+        cases hx' : x.any (.a (.dynamic s)) with
+        | d r =>
+          rw [hx'] at hxa
+          simp only
+          apply valF_eq_of_bits (by decide)
+          · exact Nat.mod_lt _ (Nat.two_pow_pos _)
+          · intro i j hi hj
+            rw [getLsbD_wd_eq_bitAt _ _ _ (by decide) hj, Nat.testBit_mod_two_pow]
+            have hlt : i * 64 + j < 64 * n := by omega
+            simp only [AnyBv.abs, hlt, decide_true, Bool.true_and]
+            rw [← Raw.abs_bit _ _ (by decide)]; rfl
+        | f w1 r =>
+          rw [hx'] at hxa
+          exact AnyBv.valF_getInt_mod (.f w1 r) hxa wok64 n)
+      rw [hxe] at r
+      exact ⟨r.1, r.2.1⟩
+
+/-- the non-wrapping word additions of the multiplication (`cadd(..) + product.1`) cannot overflow either -/
+theorem C01_mul_no_word_overflow {w : Nat} (hw : 2 ≤ w) (x y res carry : BitVec w) :
+    (cadd res (wmul x y).1 carry).2.toNat + (wmul x y).2.toNat < 2 ^ w :=
+  (mul_step_word hw wmul_ok x y res carry).1
 
 /-- the sums the Rust code computes with a non-wrapping `+` on words (`c1 as Self + c2 as Self` in
 `cadd`/`csub`) never overflow, so debug builds (overflow checks) and release builds agree. -/
@@ -77,14 +147,16 @@ theorem C01_no_word_overflow {w : Nat} (hw : 2 ≤ w) (c1 c2 : Bool) :
 
 /-- the result depends only on the abstractions of the operands: never on spare capacity, storage
 mode or how the operands were produced -/
-theorem C01_bits_only (sub : Bool) (v v' x x' : Vec) (hv : v.Inv) (hv' : v'.Inv) (hx : x.Inv) (hx' : x'.Inv)
-    (e1 : v.abs = v'.abs) (e2 : x.abs = x'.abs) :
-    (Api.addsub sub v (.vec x)).abs = (Api.addsub sub v' (.vec x')).abs := by
+theorem C01_bits_only (sub : Bool) (v v' : Vec) (x x' : Api.Rhs) (hv : v.Inv) (hv' : v'.Inv) (hx : x.Inv) (hx' : x'.Inv)
+    (e1 : v.abs = v'.abs) (e2 : x.spec = x'.spec) :
+    (Api.addsub sub v x).abs = (Api.addsub sub v' x').abs ∧ (Api.mul v x).abs = (Api.mul v' x').abs := by
+  refine ⟨?_, by rw [(C01_mul v x hv hx).2, (C01_mul v' x' hv' hx').2, e1, e2]⟩
   cases sub with
   | false => rw [(C01_add v x hv hx).2, (C01_add v' x' hv' hx').2, e1, e2]
   | true => rw [(C01_sub v x hv hx).2, (C01_sub v' x' hv' hx').2, e1, e2]
 
 /-- non-vacuity: an 11-bit `Bvf<u8,2>` all-ones plus a longer dynamic operand wraps to zero -/
 example : (Api.addsub false (.f 8 ⟨#[0xff#8, 0x07#8], 11⟩) (.vec (.d ⟨#[1#64, 0#64], 70⟩))).abs = ⟨11, 0⟩ := by decide
+example : (Api.Rhs.uint 8 200).Inv := ⟨wok8, by decide, by decide⟩
 
 end Bva
